@@ -12,13 +12,16 @@ def d33 : Bool := true
     obs: (obs wholeAccepted wholeSame wholeFixedPoint toolAccepted toolSame) -/
 def handle (_tb : Tables) (c impl : T) : String :=
   match c with
-  | .node "c15" [bs, tq, dir] =>
-    (match bs.asBool, tq.asBool, dir.asBool with
-     | some bs, some tq, some dir =>
+  | .node "c15" [bs, tq, dir, used] =>
+    (match bs.asBool, tq.asBool, dir.asBool, used.asBool with
+     | some bs, some tq, some dir, some used =>
        let predict := fun (d32 d33 : Bool) =>
          let whole := !(d32 && (bs || tq))
-         let tool := whole && !(d33 && dir)
-         T.node "obs" [T.ofBool whole, T.ofBool whole, T.ofBool whole, T.ofBool tool, T.ofBool tool]
+         -- the tool's output lacks the directive definitions: it does not load when one of them is used,
+         -- and loads as a different schema when they are only defined
+         let toolLoads := whole && !(d33 && dir && used)
+         let toolSame := whole && !(d33 && dir)
+         T.node "obs" [T.ofBool whole, T.ofBool whole, T.ofBool whole, T.ofBool toolLoads, T.ofBool toolSame]
        let cur := predict d32 d33
        let alts := [{ flag := "D32", onInCur := d32, obs := predict (!d32) d33 : Alt },
                     { flag := "D33", onInCur := d33, obs := predict d32 (!d33) }]
@@ -30,7 +33,7 @@ def handle (_tb : Tables) (c impl : T) : String :=
          (match alts.find? (fun a => a.obs == impl) with
           | some a => if impl == want then "repaired " ++ a.flag else "mismatch spec-bad " ++ cur.render
           | none => "mismatch " ++ (if impl == want then "spec-ok " else "spec-bad ") ++ cur.render)
-     | _, _, _ => "bad-op")
+     | _, _, _, _ => "bad-op")
   | _ => "bad-op"
 
 def flags (_tb : Tables) : List (String × Bool) := [("D32", d32), ("D33", d33)]
